@@ -11,6 +11,8 @@ from . import core
 
 import warnings
 warnings.filterwarnings('ignore')
+import logging
+logging.disable(logging.WARNING)
 
 
 def main():
